@@ -216,6 +216,23 @@ PROPS = {
         "explanation": "C18 theorems: memory-info entry per map line (range, 8-row protection table, private/shared type); direct auxv values are never overridden and unset ones "
                        "are filled by the named /proc pair; the link_map walk returns exactly an acyclic chain in order (and provably never terminates on a cyclic one).",
     },
+    "C02": {
+        "rule": "hostile inputs: 10⁴ / 10⁵ generated file names through the real SoVersion::parse (pieces incl. non-ASCII characters after digits, '+', overflowing numbers, "
+                "invalid UTF-8); linker data crafted in a live target's memory next to a PROT_NONE page (cyclic and self-referential link_map lists, AT_PHNUM 2^40 and "
+                "2^61, p_vaddr that under/overflows, dynamic entries / r_debug / link_map / names ending at unreadable memory, no DT_NULL) through the real "
+                "write_dso_debug_stream under a 3 s watchdog; whole dumps of targets mapping files with hostile names (non-ASCII, spaces, ' (deleted)', `.so.1.2.3é4`, "
+                "`/SYSVab`) and files from /dev/shm watched with inotify; the whole live option matrix with crash registers unmapped / at the top of the address space. "
+                "Distinct = distinct (kind, scenario, outcome) / parsed versions.",
+        "expected_tags": ["sover", "sover.some", "sover.nonascii", "dso.cyclic", "dso.mulphnum", "dso.dyn-short", "dso.linkmap-short", "dso.vaddr-underflow", "files.devshm-nonelf",
+                          "files.sysv-name", "files.sover-name", "dump", "crash.ip.top", "crash.sp.top"],
+        "extra_theorems": ["C12_total", "C06_total", "C06_walk_total", "C18_walk_cycle_diverges"],
+        "trusted_base": ["dependency code (procfs-core, goblin, nix, serde_json) is exercised, not modelled: panics inside it found by the live / fuzz runs are reported with a replay",
+                         "the dev profile (overflow checks on) is what the checks run; in a release build the same inputs wrap silently"],
+        "assumptions": ["'bounded time' is a step bound of the modelled loops plus a wall-clock watchdog on the live runs; the scan of a dynamic section without DT_NULL is bounded only by readable memory"],
+        "explanation": "C02 theorems: the repaired link_map walk terminates on every memory (fuel > number of mapped records), evaluated self-loop; no file under /dev is ever opened for a "
+                       "mapping; version parser instances incl. the formerly panicking input; imported totality theorems of the sanitiser, stack lookup and guard walk; the unrepaired walk "
+                       "provably diverges on a cyclic list.",
+    },
 }
 
 NOT_APPLICABLE = {}
